@@ -463,6 +463,13 @@ class ManagedBSE:
         if st.gget('deadpool_panics'): out.append(s.vio(p, 'panic raised inside deadpool after the last pool handle was dropped: ' + st.gget('deadpool_panics')[-1], st)); return out
         last = st.gget('last') or {}
         if last.get('res') and last['res'][0] == 'panic': out.append(s.vio(p, f'{last.get("act")} panicked after the last pool handle was dropped', st)); return out
+        if 'C08' in O and last.get('act') and last['act'][0] == 'drop_pool':
+            # C08: the manager, hooks and predicates are invoked only from inside get / retain / take / resize / close / the return of an
+            # object - dropping the last pool handle is none of these (the idle objects are simply dropped)
+            i = max(k for k, e in enumerate(st.log) if e[0] == 'act')
+            for e in st.log[i + 1:]:
+                if e[0] in ('detach', 'pred_call', 'create_call', 'recycle_call', 'hook_call'):
+                    out.append(s.vio('C08', f'the manager was invoked ({e[0]} {e[1]}) while the last pool handle was dropped - not one of get / retain / take / resize / close / the return of an object', st)); break
         objs = st.gget('objs', {})
         for o, r in objs.items():
             if r['destroyed'] > 1: out.append(s.vio(p, f'object {o} destroyed twice', st))
@@ -813,6 +820,8 @@ def _digest(s, st0, a, st):
                 vio('C08', f'user code ({k}) ran on a thread that is not inside a pool operation')
             if k in ('create_call', 'hook_call', 'recycle_call') and a[0] not in ('get', 'poll'):
                 vio('C08', f'{k} invoked outside get(): during {a[0]}')
+            if k in ('detach', 'pred_call') and a[0] == 'drop_pool':
+                vio('C08', f'the manager was invoked ({k}) while the last pool handle was dropped - not one of get / retain / take / resize / close / the return of an object')
         if k == 'create_call':
             if idleq and not thread_mode:
                 vio('C08', 'Manager::create called although an idle object was available')
